@@ -12,6 +12,7 @@ types without reference unit: the result unit) is declared at this point".
 """
 from __future__ import annotations
 
+import os
 import random
 from fractions import Fraction
 
@@ -92,7 +93,8 @@ def gen(seed, run, tier='quick'):
     model = new_model(variant)
     n_given = len(model.uorder)
     decls, noise = [], []
-    n_decl = rng.randrange(5, MAX_DECL + 1)
+    deep = tier == 'thorough'
+    n_decl = rng.randrange(5, (36 if deep else MAX_DECL) + 1)
     kinds = list(GEN_INTENTS)
     weights = [GEN_INTENTS[k] * rng.choice([1, 1, 2]) for k in kinds]
     noise_p = rng.choice([0, 0.1, 0.25])
@@ -179,7 +181,7 @@ def gen(seed, run, tier='quick'):
         return not bvec or model.result_exists(bvec, num)
 
     tries = 0
-    n_probes = rng.randrange(3, MAX_PROBES + 1)
+    n_probes = rng.randrange(3, (20 if deep else MAX_PROBES) + 1)
     while len(probes) < n_probes and tries < 300:
         tries += 1
         form = rng.choice(['uu*', 'uu*', 'uu/', 'uu/', 'u**', 'qq*', 'qq/',
@@ -218,7 +220,7 @@ def gen(seed, run, tier='quick'):
                                form[:2] != 'uq' else 'qu*', 's1': s2,
                                's2': s1, 'n': n, 'a1': a1, 'a2': a2})
     # ---- histories
-    k_worlds = rng.choice([3, 3, 4, 5, 6])
+    k_worlds = rng.choice([3, 3, 4, 5, 6] + ([7, 8] if deep else []))
     created_by = {}
     for i, act in enumerate(decls):
         for c in _creates(act):
@@ -292,6 +294,13 @@ def gen(seed, run, tier='quick'):
             if hr.random() < 0.5:
                 steps.append(['probe', p['id'], 1])
         histories.append(steps)
+    if tier == 'thorough':
+        # a share of the worlds are fresh interpreters under another
+        # PYTHONHASHSEED (the first world always is a fork of the template)
+        for steps in histories[1:]:
+            hs = rng.choice([None, None, 1, 4242])
+            if hs is not None:
+                steps.insert(0, ['hashseed', hs])
     return {'cfg': {'variant': variant, 'decls': decls, 'noise': noise,
                     'probes': probes},
             'ops': histories}
@@ -405,6 +414,8 @@ def run_world(arg):
         elif st[0] == 'evict':
             res, info = decl.perform(env, {'a': 'evict'})
             out.append(['evict', info.get('evicted', 0)])
+        elif st[0] == 'hashseed':
+            out.append(['hashseed', os.environ.get('PYTHONHASHSEED')])
         else:
             p = probes[st[1]]
             o1, r1 = evaluate(p)
@@ -447,7 +458,9 @@ def judge(h):
     logs = []
     n_steps = 0
     for w, steps in enumerate(h['ops']):
-        out = core.run_in_child(run_world, (cfg, steps))
+        hs = steps[0][1] if steps and steps[0][0] == 'hashseed' else None
+        out = core.run_in_world(run_world, (cfg, steps), hs,
+                                predefined=cfg['variant'] == 'predefined')
         logs.append(out)
         n_steps += len(out)
         model = new_model(cfg['variant'])
@@ -468,6 +481,11 @@ def judge(h):
                     bump(pr, 'noise_declaration_accepted')
             elif rec[0] == 'evict':
                 bump(faults, 'memo_eviction')
+            elif rec[0] == 'hashseed':
+                if rec[1] != str(hs):
+                    raise core.HarnessError(
+                        f"world ran under hash seed {rec[1]}, wanted {hs}")
+                bump(faults, 'restart_under_other_hash_seed')
             else:
                 p = probes[rec[1]]
                 o1 = rec[2]
